@@ -275,6 +275,56 @@ func shortVal(s string) string {
 	return s
 }
 
+// keyVal shortens a canonical form for use in an obligation key without cutting at a character
+// position: the argument lists of calls of real functions (dotted names) that are long are
+// replaced by "…", so that how an argument is spelled (a record kept by value or by pointer, a
+// pattern text) does not change the key of the site; what is indexed or dereferenced stays.
+func keyVal(s string) string {
+	var out strings.Builder
+	i := 0
+	for i < len(s) {
+		j := strings.IndexByte(s[i:], '(')
+		if j < 0 {
+			out.WriteString(s[i:])
+			break
+		}
+		j += i
+		// the name before the parenthesis
+		k := j
+		for k > i && (s[k-1] == '.' || s[k-1] == '_' || s[k-1] >= '0' && s[k-1] <= '9' || s[k-1] >= 'a' && s[k-1] <= 'z' || s[k-1] >= 'A' && s[k-1] <= 'Z') {
+			k--
+		}
+		name := s[k:j]
+		// matching parenthesis
+		depth, e := 0, -1
+		for m := j; m < len(s); m++ {
+			if s[m] == '(' {
+				depth++
+			} else if s[m] == ')' {
+				depth--
+				if depth == 0 {
+					e = m
+					break
+				}
+			}
+		}
+		if e < 0 {
+			out.WriteString(s[i:])
+			break
+		}
+		out.WriteString(s[i : j+1])
+		inner := s[j+1 : e]
+		if strings.Contains(name, ".") && len(inner) > 24 && !strings.Contains(inner, "rx‹") && !strings.Contains(inner, "set‹") && !strings.Contains(inner, "map‹") { // tables and patterns named by content stay: they are what the site depends on
+			out.WriteString("…")
+		} else {
+			out.WriteString(keyVal(inner))
+		}
+		out.WriteString(")")
+		i = e + 1
+	}
+	return out.String()
+}
+
 // checkOutputNodesGate: the visitor of GetOutputNodes admits an element only if it is the walk
 // root or (not script/style and probably visible).
 func checkOutputNodesGate(p *core.Program, r *core.Report, rule string) {
